@@ -111,9 +111,17 @@ class SeqRun(seq_hooks.HooksMixin, object):
             @db.on_connect(provider='sqlite')
             def _pragma(db_, con):
                 con.execute('PRAGMA cache_size = %d' % cs)
-        db.bind('sqlite', self.path, create_db=True, timeout=0)
+        self.raw_kw = {}
+        if self.knobs.get('dbkind') == 'shared':
+            # an in-memory database shared by the connections of this process (':sharedmemory:'): Pony keeps its
+            # connection for good (disconnect / drop do not close it); the oracle's own connection opens the same URI
+            db.bind('sqlite', ':sharedmemory:', timeout=0)
+            self.path = db.provider.pool.filename
+            self.raw_kw = {'uri': True}
+        else:
+            db.bind('sqlite', self.path, create_db=True, timeout=0)
         db.generate_mapping(create_tables=True)
-        if self.knobs.get('legacy_keys'):
+        if self.knobs.get('legacy_keys') and not self.raw_kw:
             self.strip_unique_constraints()
         procstate.register_db(db)
         self.E = dict((e.name, ns[e.name]) for e in self.schema.entities)
@@ -151,7 +159,7 @@ class SeqRun(seq_hooks.HooksMixin, object):
 
     def raw_rows(self, sql):
         import sqlite3
-        con = sqlite3.connect(self.path, isolation_level=None)
+        con = sqlite3.connect(self.path, isolation_level=None, **self.raw_kw)
         try:
             return con.execute(sql).fetchall()
         finally:
@@ -199,7 +207,7 @@ class SeqRun(seq_hooks.HooksMixin, object):
         return out
 
     def dump(self, path=None):
-        con = simdb.raw_connect(path or self.path)
+        con = simdb.raw_connect(path or self.path, **self.raw_kw)
         try:
             ents = {}
             for en, (sql, npk, layout) in self.dump_sql['ent'].items():
